@@ -261,7 +261,8 @@ def extra(rep, tier, seed, budget):
     b = {k: res.get(k) for k in ('name', 'scope', 'cases', 'distinct_nontrivial', 'rule', 'clause_counts',
                                  'exhaustive', 'wall_s')}
     b['signatures_not_claimed'] = sorted(k for k in res.get('failure_signatures', {})
-                                         if '(__context__)' in k or '.__repr__' in k or '.args' in k)[:10]
+                                         if '(__context__)' in k or '.__repr__' in k or '.args' in k
+                                         or 'DECODED password' in k)[:10]
     rep.bounded.append(b)
     rep.samples.extend(res.get('samples', [])[:2])
     seen = set()
@@ -271,6 +272,10 @@ def extra(rep, tier, seed, budget):
         # suppresses is printed by no consumer (an unsuppressed one shows up in the log_records sink);
         # (b) repr()/args of a foreign exception are not its message (str is)
         if '(__context__)' in sig:
+            return False
+        # (c) the statement protects the password AS IT APPEARS IN THE CLONE URL (its URL-encoded form, which is what
+        # git prints); a program that decodes it before printing is outside the statement (thorough tier only)
+        if 'DECODED password' in sig:
             return False
         if sig.startswith('exception_message') and ('.__repr__' in sig or '.args' in sig):
             return False
